@@ -75,6 +75,23 @@ def machines(tier):
                         st["Default"] = "D"
                     d = {"StartAt": "C", "States": {"C": st, "M1": mk("M1"), "M2": mk("M2"), "M3": mk("M3"), "D": mk("D")}}
                     out.append((d, {"n": n}, "order"))
+    # the same Variable looked at more than once in one evaluation (by a later rule, or by a later leaf of a tree), for a Variable of
+    # every type and a missing one: what the first look found must not colour the second
+    leaves = [{"BooleanEquals": True}, {"BooleanEquals": False}, {"IsPresent": True}, {"IsPresent": False}, {"StringEquals": "s"}, {"NumericEquals": 0},
+              {"IsNull": True}, {"StringMatches": "*"}]
+    MISSING = object()
+    for l1, l2 in itertools.permutations(leaves, 2):
+        for v in (MISSING, True, False, 0, "s", None):
+            inp = {} if v is MISSING else {"v": v}
+            r1, r2 = dict(l1, Variable="$.v"), dict(l2, Variable="$.v")
+            forms = [[dict(r1, Next="M1"), dict(r2, Next="M2")], [{"Or": [r1, r2], "Next": "M1"}], [{"And": [{"Not": r1}, r2], "Next": "M1"}]]
+            for ch in forms:
+                for default in ((True, False) if len(ch) == 2 else (True,)):
+                    st = {"Type": "Choice", "Choices": ch}
+                    if default:
+                        st["Default"] = "D"
+                    d = {"StartAt": "C", "States": {"C": st, "M1": mk("M1"), "M2": mk("M2"), "D": mk("D")}}
+                    out.append((d, inp, "revisit"))
     # InputPath != '$' (the *Path operand and the Variable are relative to the effective input), OutputPath
     for v, w in itertools.product([0, 1, "a"], repeat=2):
         for op in ("NumericEqualsPath", "StringEqualsPath"):
@@ -167,7 +184,7 @@ def run(tier, seed):
         "evaluations": n, "distinct_nontrivial": len(distinct),
         "rule": "one-Choice machines run through the real engine on the simulated broker (canonical schedule): all 39 operators x %d variable values "
                 "(incl. missing) x constants of every type / *Path operands; And/Or/Not trees to depth %d over 3 atoms x all 8 truth assignments; all orderings of <= 3 "
-                "overlapping rules x Default present/absent; InputPath/OutputPath variants. Judged = cases the statement determines (type tests on a missing "
+                "overlapping rules x Default present/absent; every ordered pair of 8 comparators on one Variable (missing, and of every type) as two rules, as Or and as And/Not; InputPath/OutputPath variants. Judged = cases the statement determines (type tests on a missing "
                 "Variable and *Path operands that match nothing are not judged). distinct = distinct (state, input) pairs judged" % (len(VALUES), 2 if tier == "quick" else 3),
         "judged": judged, "not_judged_ambiguous": skipped, "by_family": tags,
         "samples": [{"state": ms[0][0]["States"]["C"], "input": ms[0][1]}, {"state": ms[-1][0]["States"]["C"], "input": ms[-1][1]}],
